@@ -2,8 +2,8 @@
    these definitions of /repo; tools/srcfacts.py regenerates their normal-form digests on every run (coq/Gen/Src_*.v).
    Statements only. *)
 From Coq Require Import List String.
-From ME Require Import Model.SrcExpected Gen.Src_common Gen.Src_map Gen.Src_retry Gen.Src_poll Gen.Src_throttle Gen.Src_timeout Gen.Src_cos Gen.Src_helpers Gen.Src_fbool
-  Proofs.Src_ok_common Proofs.Src_ok_map Proofs.Src_ok_retry Proofs.Src_ok_poll Proofs.Src_ok_throttle Proofs.Src_ok_timeout Proofs.Src_ok_cos Proofs.Src_ok_helpers Proofs.Src_ok_fbool.
+From ME Require Import Model.SrcExpected Gen.Src_common Gen.Src_map Gen.Src_retry Gen.Src_poll Gen.Src_throttle Gen.Src_timeout Gen.Src_cos Gen.Src_helpers Gen.Src_fbool Gen.Src_sync
+  Proofs.Src_ok_common Proofs.Src_ok_map Proofs.Src_ok_retry Proofs.Src_ok_poll Proofs.Src_ok_throttle Proofs.Src_ok_timeout Proofs.Src_ok_cos Proofs.Src_ok_helpers Proofs.Src_ok_fbool Proofs.Src_ok_sync.
 
 (* more_executors/_impl/common.py *)
 Theorem c04_source_common : Src_common.facts = expected_common.
@@ -32,6 +32,9 @@ Proof. exact src_helpers_ok. Qed.
 (* more_executors/_impl/futures/bool.py *)
 Theorem c04_source_fbool : Src_fbool.facts = expected_fbool.
 Proof. exact src_fbool_ok. Qed.
+(* more_executors/_impl/sync.py *)
+Theorem c04_source_sync : Src_sync.facts = expected_sync.
+Proof. exact src_sync_ok. Qed.
 
 Print Assumptions c04_source_common.
 Print Assumptions c04_source_map.
@@ -42,3 +45,4 @@ Print Assumptions c04_source_timeout.
 Print Assumptions c04_source_cos.
 Print Assumptions c04_source_helpers.
 Print Assumptions c04_source_fbool.
+Print Assumptions c04_source_sync.
